@@ -2691,10 +2691,286 @@ def drv_ref_values(tier, seed):
   return rec.result()
 
 
+# ---------------------------------------------------------------------------
+# Keys matched by several key specs (round 7)
+# ---------------------------------------------------------------------------
+#
+# A Dict schema may declare several non-const key specs (StrKey patterns, the
+# catch-all StrKey()) next to const keys, directly or through extension
+# (T.Dict.extend, a pg.Object subclass overriding an inherited Dict field, a
+# chain of both).  The documented rule (Schema.get_field): a key belongs to the
+# const field of that name if there is one, else to the FIRST field, in the
+# order of the schema's fields, whose non-const key spec matches it.  The model
+# below reads only the ORDER of the key specs from a freshly built spec; which
+# key spec matches a key (own regex) and what the owning value spec accepts is
+# written down here.  Every write path must validate a key against the field
+# that owns it -- the same field construction / re-application uses.
+
+_MK_FIELDS = {
+    # name: (key source, model key matcher, value-spec source, model accept)
+    'P1': ("T.StrKey('lr_.*')", lambda k: k.startswith('lr_'),
+           'T.Float(min_value=0.0)',
+           lambda v: (None if isinstance(v, int) else (isinstance(v, float) and v >= 0.0))),
+    'P2': ("T.StrKey('.*_name')", lambda k: k.endswith('_name'),
+           'T.Str()', lambda v: isinstance(v, str)),
+    'P3': ('T.StrKey()', lambda k: True,
+           'T.Int(max_value=5)', lambda v: isinstance(v, int) and v <= 5),
+    'C1': ("'lr_const'", lambda k: k == 'lr_const',
+           'T.Int(min_value=7).noneable()', lambda v: v is None or (isinstance(v, int) and v >= 7)),
+    'C2': ("'c_name'", lambda k: k == 'c_name',
+           'T.Float(max_value=0.0).noneable()',
+           lambda v: v is None or (None if isinstance(v, int) else (isinstance(v, float) and v <= 0.0))),
+}
+_MK_KEYS = ['lr_a', 'opt_name', 'lr_name', 'zz', 'lr_const', 'c_name']
+_MK_VALUES = ['0.5', '-1.0', "'abc'", '3', '9', 'None']
+
+
+def _mk_spec_src(groups):
+  """Source of a Dict spec: groups[0] extended by groups[1] extended by ..."""
+  def one(names):
+    return 'T.Dict([' + ','.join(f'({_MK_FIELDS[n][0]},{_MK_FIELDS[n][2]})' for n in names) + '])'
+  src = one(groups[0])
+  for g in groups[1:]:
+    src = f'_ext({src},{one(g)})'
+  return src
+
+
+_MK_PRELUDE = ('import pyglove as pg\nT=pg.typing\n'
+               'def _ext(child,base):\n  child.extend(base)\n  return child\n')
+
+
+def _mk_setup(groups, how, where):
+  """Source defining mkspec() and mk(init) -> (root, x)."""
+  src = _MK_PRELUDE
+  chain = _mk_spec_src(groups)
+  if how == 'object-inherit' and len(groups) > 1:
+    # child class field overrides the inherited Dict field, base classes first
+    src += '@pg.members([("opts",%s)])\nclass K0(pg.Object):\n  pass\n' % _mk_spec_src(groups[-1:])
+    for i, g in enumerate(reversed(groups[:-1])):
+      src += '@pg.members([("opts",%s)])\nclass K%d(K%d):\n  pass\n' % (_mk_spec_src([g]), i + 1, i)
+    top = 'K%d' % (len(groups) - 1)
+    src += f'def mkspec():\n  return {top}.__schema__["opts"].value\n'
+    src += f'def mk(init):\n  root={top}(opts=init)\n  return root, root.opts\n'
+    return src
+  src += f'def mkspec():\n  return {chain}\n'
+  if where == 'top':
+    src += 'def mk(init):\n  x=pg.Dict(init,value_spec=mkspec())\n  return x, x\n'
+  elif where == 'dict-field':
+    src += ('def mk(init):\n  root=pg.Dict(opts=init,n=1,value_spec=T.Dict([("opts",mkspec()),("n",T.Int())]))\n'
+            '  return root, root.opts\n')
+  elif where == 'list-element':
+    src += 'def mk(init):\n  root=pg.List([init],value_spec=T.List(mkspec()))\n  return root, root[0]\n'
+  else:
+    src += ('@pg.members([("opts",mkspec())])\nclass Holder(pg.Object):\n  pass\n'
+            'def mk(init):\n  root=Holder(opts=init)\n  return root, root.opts\n')
+  return src
+
+
+def _mk_owner(order, key):
+  """Model: the field that owns `key` under the field order `order`."""
+  for n in order:
+    if n.startswith('C') and _MK_FIELDS[n][1](key):
+      return n
+  for n in order:
+    if n.startswith('P') and _MK_FIELDS[n][1](key):
+      return n
+  return None
+
+
+def _mk_order(spec):
+  """Names of the model fields in the order of the real schema's key specs."""
+  by_src = {}
+  for n, f in _MK_FIELDS.items():
+    by_src[str(eval(f[0], {'T': T}))] = n  # pylint: disable=eval-used
+  return [by_src[str(k)] for k in spec.schema.keys()]
+
+
+_MK_PATHS = [
+    ('setitem', 'x[{k!r}]={v}', True),
+    ('setattr', 'setattr(x,{k!r},{v})', True),
+    ('update', 'x.update({{{k!r}:{v}}})', True),
+    ('update-kwargs', 'x.update(**{{{k!r}:{v}}})', True),
+    ('ior', 'x|={{{k!r}:{v}}}', True),
+    ('setdefault', 'x.setdefault({k!r},{v})', False),
+    ('rebind', 'x.rebind({{{k!r}:{v}}})', True),
+    ('rebind-kwargs', 'x.rebind(**{{{k!r}:{v}}})', True),
+    ('rebind-fn', 'x.rebind(lambda kp,val,p:({v}) if kp.key=={k!r} else val)', 'present'),
+    ('sym_rebind-from-root', 'root.rebind({{str(x.sym_path+{k!r}):{v}}})', 'nested'),
+    ('ctor', 'x=pg.Dict(dict(pg.to_json(x),**{{{k!r}:{v}}}),value_spec=mkspec())', 'new'),
+    ('use_value_spec', 'x=pg.Dict(dict(pg.to_json(x),**{{{k!r}:{v}}})).use_value_spec(mkspec())', 'new'),
+    ('apply', 'x=mkspec().apply(dict(pg.to_json(x),**{{{k!r}:{v}}}))', 'new'),
+    ('clone-override', 'x=x.clone(override={{{k!r}:{v}}})', 'new'),
+    ('clone-deep-override', 'x=x.clone(deep=True,override={{{k!r}:{v}}})', 'new'),
+]
+
+
+def _mk_layouts(tier, r):
+  """(groups, how): groups[0] is the most derived spec, the last the base."""
+  lay = []
+  pats = ['P1', 'P2', 'P3']
+  for n in (2, 3):
+    for perm in itertools.permutations(pats, n):
+      perm = list(perm)
+      for consts in ([], ['C1', 'C2']):
+        # declared together
+        lay.append(([consts[:1] + perm + consts[1:]], 'declared-together'))
+        # split between a base and a derived spec at every position
+        for cut in range(1, n):
+          child, base = perm[:cut], perm[cut:]
+          for cpos in range(2 if consts else 1):
+            g = [child + (consts if cpos == 0 else []), base + (consts if cpos == 1 else [])]
+            lay.append((g, 'extend'))
+            lay.append((g, 'object-inherit'))
+        if n == 3:
+          lay.append(([[perm[0]] + consts[:1], [perm[1]], [perm[2]] + consts[1:]], 'extend'))
+          lay.append(([[perm[0]] + consts[:1], [perm[1]], [perm[2]] + consts[1:]], 'object-inherit'))
+  if tier == 'quick':
+    # stratified sample: every way of building the schema, with and without const keys
+    out = []
+    for how, n in (('declared-together', 2), ('extend', 4), ('object-inherit', 3)):
+      pool = [l for l in lay if l[1] == how]
+      r.shuffle(pool)
+      with_c = [l for l in pool if any(x[0] == 'C' for g in l[0] for x in g)]
+      without = [l for l in pool if l not in with_c]
+      out += with_c[:n // 2] + without[:n - n // 2]
+    lay = out
+  return lay
+
+
+def drv_keys_matching_several_key_specs(tier, seed):
+  rec = Recorder('C03', 'typed Dict: a key matched by several key specs is validated against the field that owns it, on every write path',
+                 scope='Dict schemas of 2..3 non-const key specs (lr_.*, .*_name, catch-all) and 0/2 const keys that also match '
+                       'them, every order; declared together / split over T.Dict.extend (1 or 2 levels) / inherited Object '
+                       'field override; dict at top, as Dict field, List element, Object field; 6 keys x 6 values x 15 write '
+                       'paths, key absent and present (quick: sampled layouts)')
+  r = rng(seed, 'c03-multikey')
+  layouts = _mk_layouts(tier, r)
+  for groups, how in layouts:
+    wheres = ['top', 'dict-field', 'list-element', 'object-field'] if how != 'object-inherit' else ['object-field']
+    if tier == 'quick' and how != 'object-inherit':
+      wheres = [r.choice(wheres)]
+    for where in wheres:
+      setup = _mk_setup(groups, how, where)
+      env = {}
+      lkey = (how, tuple(map(tuple, groups)), where)
+      fam = 'declared-together' if how == 'declared-together' else 'extended-schema'
+      try:
+        _exec(setup, env)
+        order = _mk_order(env['mkspec']())
+      except Exception as e:  # pylint: disable=broad-except
+        rec.case(f'dict.schema-build/{fam}/several-non-const-key-specs', lkey, False,
+                 f'building the schema raised {type(e).__name__}: {e}', setup)
+        continue
+      flat = [n for g in groups for n in g]
+      rec.case(f'dict.schema-build/{fam}/several-non-const-key-specs', lkey, sorted(order) == sorted(flat),
+               f'schema fields {order} are not the declared ones {flat}', setup + 'print(list(mkspec().schema.keys()))')
+      owners = {k: _mk_owner(order, k) for k in _MK_KEYS}
+
+      def valid_for(k):
+        o = owners[k]
+        return [v for v in _MK_VALUES if o and _MK_FIELDS[o][3](eval(v)) is True]  # pylint: disable=eval-used
+
+      # initial states: no pattern key present / every ownable key present with a value its owner accepts
+      full = {k: eval(valid_for(k)[0]) for k in _MK_KEYS if owners[k] and not owners[k].startswith('C')}  # pylint: disable=eval-used
+      for init_name, init in (('absent', {}), ('present', full)):
+        init_src = repr(init)
+        for k in _MK_KEYS:
+          owner = owners[k]
+          matches = [n for n in order if _MK_FIELDS[n][1](k)]
+          if owner is None:
+            kcls = 'key-matching-no-key-spec'
+          elif owner.startswith('C'):
+            kcls = 'const-key-also-matching-patterns' if len(matches) > 1 else 'const-key'
+          elif len(matches) > 1:
+            kcls = 'key-matching-several-patterns'
+          else:
+            kcls = 'key-matching-one-pattern'
+          for v in _MK_VALUES:
+            val = eval(v)  # pylint: disable=eval-used
+            acc = _MK_FIELDS[owner][3](val) if owner else False
+            if acc is None:
+              continue
+            others_accept = any(_MK_FIELDS[n][3](val) is True for n in matches if n != owner)
+            if acc:
+              vcls = 'owner-accepts'
+            else:
+              vcls = 'owner-rejects:another-matching-field-accepts' if others_accept else 'owner-rejects'
+            for pname, templ, cond in _MK_PATHS:
+              if cond == 'nested' and where == 'top' and how != 'object-inherit':
+                continue
+              if cond == 'present' and k not in init:
+                continue
+              is_write = True
+              if pname == 'setdefault' and (k in init or (owner and owner.startswith('C'))):
+                is_write = False   # key present (const keys: present or defaulted): nothing is written
+              op = templ.format(k=k, v=v)
+              cid = f'dict.{pname}/{fam}/{kcls}/{vcls}'
+              key = (lkey, init_name, k, v)
+              wit = (setup + f'root,x=mk({init_src})\nbefore=pg.to_json(root)\nraised=None\ntry:\n  {op}\n'
+                     'except (TypeError,ValueError,KeyError) as e:\n  raised=e\n')
+              try:
+                root, x = env['mk'](eval(init_src))  # pylint: disable=eval-used
+              except Exception as e:  # pylint: disable=broad-except
+                rec.case(f'dict.ctor/{fam}/valid-initial-state-refused', (lkey, init_name), False,
+                         f'construction from values their owning fields accept raised {type(e).__name__}: {e}',
+                         setup + f'mk({init_src})')
+                break
+              before_root, before_x = _dp(root), _dp(x)
+              loc = dict(env, root=root, x=x)
+              raised = None
+              try:
+                _exec(op, loc)
+              except Exception as e:  # pylint: disable=broad-except
+                raised = e
+              x2 = loc['x']
+              replaced = x2 is not x
+              msg = None
+              if raised is not None and not isinstance(raised, REJECT_CLASSES):
+                msg = f'raised {type(raised).__name__}: {raised}'
+                wit2 = setup + f'root,x=mk({init_src})\n{op}\n'
+              elif raised is not None and (_dp(root) != before_root or _dp(x) != before_x):
+                msg = f'{op} raised {type(raised).__name__} but changed the state: {before_x!r} -> {_dp(x)!r}'
+                wit2 = wit + 'assert raised is None or pg.to_json(root)==before, pg.to_json(root)\n'
+              elif is_write and not acc and raised is None:
+                msg = (f'{op}: key {k!r} belongs to field {owner} ({_MK_FIELDS[owner][0]}: {_MK_FIELDS[owner][2]}) of fields {order}, '
+                       f'which rejects {v}; no error, state {_dp(x2)!r}' if owner else
+                       f'{op}: key {k!r} matches no key spec of {order}; no error, state {_dp(x2)!r}')
+                wit2 = wit + f'assert raised is not None, "schema-rejected write was stored: %r" % (x,)\n'
+              else:
+                # whatever happened: every stored member is accepted by its owner; the fresh spec re-accepts the state
+                bad = None
+                for kk, vv in _dp(x2).items():
+                  oo = _mk_owner(order, kk)
+                  if oo is None or _MK_FIELDS[oo][3](vv) is False:
+                    bad = f'stored {kk!r}: {vv!r} is rejected by its owning field {oo}'
+                    break
+                if bad is None:
+                  bad = _check_real(x2, env['mkspec'](), False)
+                if bad is None and not replaced:
+                  bad = _check_real(root, root.value_spec, False) if isinstance(root, (pg.Dict, pg.List)) and root.value_spec else None
+                if bad is not None:
+                  msg = f'after {op}: {bad}'
+                  wit2 = wit + 'mkspec().apply(pg.from_json(pg.to_json(x)))\n'
+              rec.case(cid, key, msg is None, msg or '', wit2 if msg else '')
+              if msg is None and raised is None and is_write and acc and not replaced:
+                # the stored value reads back as written
+                got = _dp(x2).get(k, M)
+                rec.case(f'dict.{pname}/{fam}/{kcls}/accepted-value-stored', key,
+                         not is_missing(got) and got == val and type(got) is type(val),
+                         f'{op} succeeded but x[{k!r}] reads {got!r}', wit + f'assert x[{k!r}]=={v}, x\n')
+            else:
+              continue
+            break
+          else:
+            continue
+          break
+  return rec.result()
+
+
 DRIVERS = [drv_list_writes, drv_list_histories, drv_dict_writes, drv_object_writes, drv_dict_histories,
            drv_spec_modifiers_dict, drv_spec_modifiers_object, drv_dict_resets, drv_object_resets,
            drv_boilerplate_template_isolation, drv_boilerplate_object_writes,
-           drv_pretyped_values, drv_ref_values]
+           drv_pretyped_values, drv_ref_values, drv_keys_matching_several_key_specs]
 
 
 def replay(rec):
